@@ -55,6 +55,100 @@ CHECKS = {
         technique="explicit enumeration of crops x strategies x windows on the implementation; per-transition identities and per-execution summary/table relation",
         ref="3/C06",
     ),
+    "C07": dict(
+        text="Every window of a start/end/planting/length/off-season lattice, crop death forced on every day of the season, explicit latest-harvest dates, six "
+             "stepping styles, a thermal crop and natural deaths are run on the real model; the executed trace (date, season, days after planting, in-season "
+             "flag, harvest event, finished flag per transition) is compared element-wise with a reference calendar automaton (pure date arithmetic) and "
+             "against direct trace invariants (each day once, chronological, row index = date, termination).",
+        technique="exhaustive window/death-day/stepping-style enumeration on the implementation; conformance of every executed trace with a reference calendar automaton",
+        ref="3/C07",
+    ),
+    "C08": dict(
+        text="For every season k >= 1 of every enumerated multi-season configuration (6 strategies x initial water x bunds x table x words, scaled, thermal and "
+             "full-length crops) the season's rows in all daily tables and its summary row are compared bitwise with a fresh single-season run started on that "
+             "season's planting date: a differential oracle over the history 'seasons simulated before k'.",
+        technique="exhaustive enumeration of configurations x season index; bitwise differential comparison of two implementation runs",
+        ref="3/C08",
+    ),
+    "C09": dict(
+        text="All 2^(n-1) compositions of the first n transitions into run_model calls (brute force) and an explicit-state search with deduplication on the "
+             "canonical model state (every call size from every prefix state lands on the uninterrupted run's state), so that all call partitions of the "
+             "window are covered by induction; unfinished/finished flags after every call and bitwise final tables.",
+        technique="explicit-state search over API-call histories of the real model with canonical-state hashing; brute-force enumeration of all compositions",
+        ref="3/C09",
+    ),
+    "C10": dict(
+        text="Operation sequences (construct/init/run) of length <= 2 (quick) / 3 (thorough) over 8 configurations touching every process-global, each in its own "
+             "fresh interpreter, under several hash seeds and pool sizes; oracle: table digest equals the configuration run alone, and a global-state monitor "
+             "(module-level objects, class attributes, default-argument tuples, numpy error state) never changes, which closes the argument for histories of "
+             "any length.",
+        technique="exhaustive enumeration of operation sequences in fresh interpreters; digest equality and process-global state fix-point",
+        ref="3/C10",
+    ),
+    "C11": dict(
+        text="For configurations exercising every write into a user object during initialisation, all sequences of length 3 over {rerun, rebuild} are executed on "
+             "the same user objects; no operation may raise and every run must reproduce the first run's tables bitwise; the canonical hash of the user objects "
+             "reaches a fix-point after the first run, which extends the verdict to any number of earlier runs.",
+        technique="exhaustive enumeration of rerun/rebuild histories on the implementation with user-object state hashing (fix-point closure)",
+        ref="3/C11",
+    ),
+    "C12": dict(
+        text="Content hashes of every profile array, soil scalar, the profile table, the four management structs, the water-table series, the weather matrix/table "
+             "and the CO2 table are compared with their initial values after EVERY transition, over the (z_cn, z_germ) lattice incl. off-boundary depths, thickness "
+             "lists, management/groundwater menus, thermal and deep-rooted crops; per-season crop copies may change only when their season starts.",
+        technique="exhaustive configuration enumeration on the implementation; per-transition content-hash invariant over all parameter objects",
+        ref="3/C12",
+    ),
+    "C13": dict(
+        text="The complete irrigation sub-product (19 strategy settings x daily max x seasonal max x efficiency x initial water x words) is executed; the per-strategy "
+             "contract is evaluated on every transition and the threshold/interval decision and amount are re-computed from the captured inputs/outputs of the "
+             "real irrigation() call.",
+        technique="exhaustive enumeration of the irrigation parameter product on the implementation; per-transition contract with decision re-computation",
+        ref="3/C13",
+    ),
+    "C14": dict(
+        text="Every cut day t of two-season runs x weather word replaced from t onwards: rows before t bitwise equal; all 37 crops with hundreds/thousands of "
+             "foreign weather rows outside the window; end-date extensions leave completed seasons unchanged.",
+        technique="exhaustive enumeration of cut days / perturbations; bitwise differential comparison of two implementation runs",
+        ref="3/C14",
+    ),
+    "C15": dict(
+        text="All 120 permutations of the required weather columns, extra columns, five index kinds and extra leading/trailing rows (alone in the quick tier, the "
+             "full 9600-table product in the thorough tier) for a calendar and a thermal crop; tables bitwise equal to the canonical-table run.",
+        technique="exhaustive enumeration of equivalent weather tables; bitwise differential comparison",
+        ref="3/C15",
+    ),
+    "C16": dict(
+        text="The catalogue product 37 crops x 15 soils x 6 strategies (pairwise in the quick tier, complete in the thorough tier) plus every single and pairwise "
+             "deviation over 43 option switches and 10 window deviations around 6 bases; each run must terminate (watchdog), raise only documented rejections "
+             "(type and origin) and report only finite numbers.",
+        technique="exhaustive enumeration of the catalogue and option/window deviations on the implementation; termination, exception-origin and finiteness oracle",
+        ref="3/C16",
+    ),
+    "C17": dict(
+        text="The real stress/growth functions are evaluated on a dense argument lattice for all 37 crops: range invariants on every node, monotonicity on every "
+             "edge between neighbouring nodes, inverse relation of the canopy curve, fCO2 through a real initialisation.",
+        technique="exhaustive evaluation of the real functions on a finite argument lattice (nodes = points, edges = neighbours)",
+        ref="3/C17",
+    ),
+    "C18": dict(
+        text="Soils (15 built-ins, custom 1-3 layers, texture grid) x thickness lists x every catalogue Zmax x initial-water types/methods; each lattice point is one "
+             "real initialisation compared with a reference builder (geometry, layer map, property ordering, required depth, theta at step 0).",
+        technique="exhaustive enumeration of soil/initial-water configurations; conformance of every initialised profile with a reference builder",
+        ref="3/C18",
+    ),
+    "C19": dict(
+        text="Soils x (deep / deepened profiles) x 17 water-table settings x crops x irrigation x words; adjusted field capacity range on every groundwater check, "
+             "capillary-rise cap around every capillary_rise call, saturation below the table after every transition, z_gw against a reference interpolation, "
+             "no-table zeros, and bitwise equality of (table at 50 m) with (no table).",
+        technique="exhaustive configuration enumeration on the implementation; per-transition invariants with call capture, reference interpolation, differential pairs",
+        ref="3/C19",
+    ),
+    "C20": dict(
+        text="8 bases x 21 neutral transformations alone and in pairs; all four tables bitwise equal to the base run.",
+        technique="exhaustive enumeration of neutral transformations (singles and pairs); bitwise differential comparison",
+        ref="3/C20",
+    ),
 }
 
 NOT_YET = "check not built yet in this session (in progress; see DESIGN.md 3 for its design)"
